@@ -102,7 +102,11 @@ type ReplayFile struct {
 	RepoRev    string     `json:"repo_rev"`
 	Minimised  bool       `json:"minimised"`
 	Choices    []Choice   `json:"choices"`
-	Violation  *Violation `json:"violation"`
+	// SeedOnly: no recorded choices (the process died inside the run, e.g. a
+	// panic on a goroutine of the system under test): replay draws from the
+	// run seed's PRNG again.
+	SeedOnly  bool       `json:"seed_only,omitempty"`
+	Violation *Violation `json:"violation"`
 	LogDigest  string     `json:"event_log_digest"`
 	Log        []string   `json:"event_log"`
 }
@@ -319,6 +323,10 @@ func WorkerMain(t *testing.T, opt Options, fn EngineFunc) {
 		}
 		name := fmt.Sprintf("s%d", runSeed)
 		currentRun.Store(&name)
+		if out != "" {
+			// if the process dies inside this run the driver still knows which one it was
+			os.WriteFile(out+".cur", []byte(strconv.FormatUint(runSeed, 10)), 0o644)
+		}
 		lastProgress.Store(time.Now().UnixNano())
 		c := NewPRNGChooser(runSeed, 0)
 		o := execOne(t, name, c, runSeed, prop, tier, known, fn)
@@ -587,7 +595,10 @@ func replayMain(t *testing.T, opt Options, fn EngineFunc, known *KnownFindings, 
 	if prop == "" {
 		prop = rf.Property
 	}
-	c := NewReplayChooser(rf.Choices)
+	var c Chooser = NewReplayChooser(rf.Choices)
+	if rf.SeedOnly {
+		c = NewPRNGChooser(rf.RunSeed, 0)
+	}
 	name := fmt.Sprintf("replay%d", rf.RunSeed)
 	currentRun.Store(&name)
 	o := execOne(t, name, c, rf.RunSeed, prop, rf.Tier, known, fn)
